@@ -1409,7 +1409,8 @@ def emit_fn(d, unit, report, canaries):
             blines = body.split('\n')
             i = find_line(blines, rx, k, fname + ' opaque')
             rest = '\n'.join(blines[i:])
-            pos = _loop_open_brace(rest) if re.match(r'\s*(for|while|loop)\b', blines[i]) else None
+            pos = _loop_open_brace(rest) if re.match(r'\s*(for|while|loop)\b', blines[i]) else (
+                _stmt_open_brace(rest) if re.match(r'\s*(match|if)\b', blines[i]) else None)
             if pos is not None:
                 close = _match_brace(rest, pos)
             else:
